@@ -52,7 +52,7 @@ def _packet(kind, K, **kw):
             bad = bad | valid_stable_monitor(m, sl, "slave%d" % i)
         b = Signal(name_override="bad_stable")
         m.comb += b.eq(bad)
-        return H("packet_dispatcher_%d.stable" % kw["n"], m, m.free, assume=[m.asm, asel], bad=dict(stable=b), witness=dict(sel_changed_mid_packet=m.w), K=K, funcs=F, cfg=dict(kw), show=m.showl, vcycles=30)
+        return H("packet_dispatcher_%d.stable" % kw["n"], m, m.free, assume=[m.asm, asel], bad=dict(stable=b, beat_taken_when_all_slaves_ready=m.bad_stall), witness=dict(sel_changed_mid_packet=m.w), K=K, funcs=F, cfg=dict(kw), show=m.showl, vcycles=30)
     if kind == "fifo":
         m = c16.PFifoMon(kw["depth"], kw["param_depth"], kw.get("buffered", False))
         bad = valid_stable_monitor(m, m.dut.source, "source")
@@ -84,7 +84,7 @@ def jobs(tier):
     K = 24 if tier == "thorough" else 16
     js = []
     KP = 16 if tier == "thorough" else 12
-    js += [Job("packet_arbiter_2.stable", _packet, dict(kind="arbiter", K=KP, n=2), cost=6), Job("packet_dispatcher_2.stable", _packet, dict(kind="dispatcher", K=KP, n=2), cost=6),
+    js += [Job("packet_arbiter_2.stable", _packet, dict(kind="arbiter", K=KP, n=2), cost=6), Job("packet_dispatcher_2.stable", _packet, dict(kind="dispatcher", K=KP, n=2), cost=6), Job("packet_dispatcher_3.stable", _packet, dict(kind="dispatcher", K=KP, n=3), cost=8),
            Job("packetfifo_d4_p2.stable", _packet, dict(kind="fifo", K=KP, depth=4, param_depth=2), cost=10)]
     from vf.props.c16 import HEADERS
     hn = sorted(HEADERS)[0]
@@ -93,7 +93,7 @@ def jobs(tier):
     js.append(Job("packetizer_h6_d32.stable", _packet, dict(kind="packetizer", K=KP, header="h6", dw=32), cost=10))
     js.append(Job("packetizer_h3_d16.stable", _packet, dict(kind="packetizer", K=KP, header="h3", dw=16), cost=10))
     if tier == "thorough":
-        js += [Job("packet_arbiter_3.stable", _packet, dict(kind="arbiter", K=KP, n=3), cost=12), Job("packet_dispatcher_3.stable", _packet, dict(kind="dispatcher", K=KP, n=3), cost=12)]
+        js += [Job("packet_arbiter_3.stable", _packet, dict(kind="arbiter", K=KP, n=3), cost=12), Job("packet_dispatcher_5.stable", _packet, dict(kind="dispatcher", K=KP, n=5), cost=12)]
     for e in streams.catalogue():
         if tier in e.tiers:
             js.append(Job(e.name + ".stable", _build, dict(name=e.name, K=K, which="c04a"), cost=e.cost))
